@@ -33,6 +33,10 @@ type C04Params struct {
 	Words  []C04Word `json:"words"`
 	Others []string  `json:"others"` // plain entries next to the block
 	Nested bool      `json:"nested"`
+	// Concat: the block sits between `##!=>` markers inside an assemble block: pre, block, post are concatenated
+	Concat bool   `json:"concat"`
+	Pre    string `json:"pre,omitempty"`
+	Post   string `json:"post,omitempty"`
 	// configuration as written (key -> value; missing key = not written)
 	Config     map[string]string `json:"config"`
 	ConfigMode string            `json:"config_mode"` // complete | partial | padded | empty | torn | type-error | other-name | absent | open-eacces | open-eloop | is-directory
@@ -113,6 +117,11 @@ func genC04(t *rapid.T, tier string) (*World, any) {
 		p.Others = append(p.Others, "zz"+drawWord(t, 1, 3, "other"))
 	}
 	p.Nested = chance(t, 25, "nested")
+	if !p.Nested && chance(t, 20, "concat") {
+		p.Concat = true
+		p.Pre = "qq" + drawWord(t, 1, 2, "pre")
+		p.Post = drawWord(t, 1, 2, "post") + "kk"
+	}
 	// the intended complete configuration
 	full := map[string]cfgPattern{}
 	for _, sh := range []string{"unix", "windows"} {
@@ -221,7 +230,13 @@ func genC04(t *rapid.T, tier string) (*World, any) {
 		blk = append(blk, "  "+wd.Line)
 	}
 	blk = append(blk, "##!<")
-	if p.Nested {
+	if p.Concat {
+		lines = append(lines, "##!> assemble", "  "+p.Pre, "  ##!=>")
+		for _, b := range blk {
+			lines = append(lines, "  "+b)
+		}
+		lines = append(lines, "  ##!=>", "  "+p.Post, "##!<")
+	} else if p.Nested {
 		lines = append(lines, "##!> assemble")
 		for _, b := range blk {
 			lines = append(lines, "  "+b)
@@ -340,6 +355,10 @@ func evalC04(sc *Scenario, sim *Sim) ([]Violation, bool, string) {
 		lowers = append(lowers, p.refRegex(m, false))
 		uppers = append(uppers, p.refRegex(m, true))
 	}
+	if p.Concat {
+		lowers = []string{regexp.QuoteMeta(p.Pre) + "(?:" + strings.Join(lowers, "|") + ")" + regexp.QuoteMeta(p.Post)}
+		uppers = []string{regexp.QuoteMeta(p.Pre) + "(?:" + strings.Join(uppers, "|") + ")" + regexp.QuoteMeta(p.Post)}
+	}
 	for _, o := range p.Others {
 		lowers = append(lowers, regexp.QuoteMeta(o))
 		uppers = append(uppers, regexp.QuoteMeta(o))
@@ -383,7 +402,7 @@ func evalC04(sc *Scenario, sim *Sim) ([]Violation, bool, string) {
 			if m.Suffix != nil && m.Suffix.Text != "" {
 				sbd.WriteString(m.Suffix.Samples[next(len(m.Suffix.Samples))])
 			}
-			pos := sbd.String()
+			pos := p.Pre + sbd.String() + p.Post
 			if !lower.MatchString(pos) {
 				machinery("positive sample %q is not in the reference language (bad sample table)", pos)
 			}
@@ -415,6 +434,13 @@ func evalC04(sc *Scenario, sim *Sim) ([]Violation, bool, string) {
 			negs = append(negs, word[:len(word)-1])
 			negs = append(negs, word+word)
 		}
+		if p.Concat {
+			for i := range negs {
+				negs[i] = p.Pre + negs[i] + p.Post
+			}
+			// the block acts as a single unit: neither a bare word nor a half of the concatenation may match
+			negs = append(negs, p.Pre+word, word+p.Post, word)
+		}
 		for _, ng := range negs {
 			if upper.MatchString(ng) {
 				continue // some reading of the block allows it
@@ -436,7 +462,7 @@ func evalC04(sc *Scenario, sim *Sim) ([]Violation, bool, string) {
 func init() {
 	register(&Property{
 		ID: "C04", Level: "exploration",
-		Rule: "scenario = cmdline unix|windows block with 1-6 command words over letters, digits, `.`, `-`, `_`, blank with optional @ / ~ / \\@ / \\~ and verbatim (') lines, alone, next to plain entries, or nested in an assemble block x configuration state of regex-assembly/toolchain.yaml: complete, partial (random keys missing), padded with white space, empty, torn after two thirds (syntactically broken), well-formed with a value of the wrong type (the decoder fails after filling the other fields), another file selected with -f, absent, open failing with EACCES / ELOOP (I/O seam), a directory in its place (read fails) x pattern triple drawn from a pool whose members come with positive sample strings x a schedule. Oracles: two reference languages built from the statement (lower = characters with the effective evasion pattern between them, `.` / `-` literal, blank = white space+, demanded suffix; upper additionally tolerates one evasion token before the suffix): every positive sample (word itself; 7 variants with evasion samples interleaved and the suffix sample appended) must match the generated regex, every negative sample (`.`/`-` replaced, blank removed, demanded suffix dropped, truncated, doubled) outside upper must not; every failed configuration must give output byte-identical to the explicit empty configuration. Non-trivial = every scenario; distinct = distinct (world, configuration mode).",
+		Rule: "scenario = cmdline unix|windows block with 1-6 command words over letters, digits, `.`, `-`, `_`, blank with optional @ / ~ / \\@ / \\~ and verbatim (') lines, alone, next to plain entries, nested in an assemble block, or concatenated between `##!=>` markers inside an assemble block x configuration state of regex-assembly/toolchain.yaml: complete, partial (random keys missing), padded with white space, empty, torn after two thirds (syntactically broken), well-formed with a value of the wrong type (the decoder fails after filling the other fields), another file selected with -f, absent, open failing with EACCES / ELOOP (I/O seam), a directory in its place (read fails) x pattern triple drawn from a pool whose members come with positive sample strings x a schedule. Oracles: two reference languages built from the statement (lower = characters with the effective evasion pattern between them, `.` / `-` literal, blank = white space+, demanded suffix; upper additionally tolerates one evasion token before the suffix): every positive sample (word itself; 7 variants with evasion samples interleaved and the suffix sample appended) must match the generated regex, every negative sample (`.`/`-` replaced, blank removed, demanded suffix dropped, truncated, doubled) outside upper must not; every failed configuration must give output byte-identical to the explicit empty configuration. Non-trivial = every scenario; distinct = distinct (world, configuration mode).",
 		Gen:  genC04, Eval: evalC04,
 		QuickChecks: 2500, ThoroughChecks: 40000, Timeout: 20 * time.Second,
 		Assumptions: []string{
